@@ -114,6 +114,10 @@ def glueTable (m : Asg) (ids ts : List Nat) : List (Nat × KV.GroupGlue.TopicMap
     | some e => KV.GroupGlue.decodeAssignment e.2
     | none => [])
 
+/-- `makeAssignments` applied to every member's received map with that member's own topic list -/
+def viewTable (ms : List Member) (tb : List (Nat × KV.GroupGlue.TopicMap)) : List (Nat × KV.GroupGlue.TopicMap) :=
+  tb.map fun e => (e.1, KV.GroupGlue.makeAssignments (((ms.find? (·.id == e.1)).map (·.topics)).getD []) e.2)
+
 def asgOfTable (tb : List (Nat × KV.GroupGlue.TopicMap)) : Asg :=
   fun t id => match tb.find? (·.1 == id) with
     | some e => (KV.GroupGlue.mapGet t e.2).getD []
@@ -257,16 +261,21 @@ def step (line : String) : String :=
         let ok := impl != "panic"
         -- ops g<balancer>: the same group run through the real leader glue; `impl` is what the members RECEIVED;
         -- the model is the balancer model pushed through Model/GroupGlue (topics32 iterated in reverse order)
-        let viaGlue := op.startsWith "g"
+        -- ops v<balancer>: as g<balancer>, `impl` is Generation.Assignments of every member (after makeAssignments);
+        -- the model applies `GroupGlue.makeAssignments` with the member's own topic list to its table entry
+        let viaView := op.startsWith "v"
+        let viaGlue := op.startsWith "g" || viaView
         let bop := if viaGlue then (op.drop 1).toString else op
         -- `thru m` = `KV.GroupGlue.delivered List.reverse m ids ts` evaluated through a table (see `glueTable`)
         -- (the table is bound as data at each use so that it is computed once, not once per lookup)
         match bop with
         | "range" =>
-          let tb := if viaGlue then glueTable (rangeAssign ms ps) ids ts else []
+          let tb0 := if viaGlue then glueTable (rangeAssign ms ps) ids ts else []
+          let tb := if viaView then viewTable ms tb0 else tb0
           answer (render (if viaGlue then asgOfTable tb else rangeAssign ms ps) idsH ts) (ok && (!wf || rangeHoldsOn ms ps a ts ids))
         | "rr" =>
-          let tb := if viaGlue then glueTable (rrAssign ms ps) ids ts else []
+          let tb0 := if viaGlue then glueTable (rrAssign ms ps) ids ts else []
+          let tb := if viaView then viewTable ms tb0 else tb0
           answer (render (if viaGlue then asgOfTable tb else rrAssign ms ps) idsH ts) (ok && (!wf || rrHoldsOn ms ps a ts ids))
         | "rack" =>
           let zs := sortDedup (ms.map (·.zone) ++ ps.map (·.zone))
@@ -274,7 +283,8 @@ def step (line : String) : String :=
           let m : Asg := fun t id => match per.find? (·.1 == t) with
                                      | some (_, some es) => collect id es
                                      | _ => []
-          let tb := if viaGlue then glueTable m ids ts else []
+          let tb0 := if viaGlue then glueTable m ids ts else []
+          let tb := if viaView then viewTable ms tb0 else tb0
           let model : String :=
             if per.any (·.2.isNone) then "panic"
             else render (if viaGlue then asgOfTable tb else m) idsH ts
